@@ -676,7 +676,18 @@ def rule_sign_carry(ctx: Ctx, rels: List[str]) -> None:
                 ctx.touch(m, fn)
                 phase_args = list(c.args[1:]) + [k.value for k in c.keywords if k.arg in ("phase", "iphase")]
                 carried = any(isinstance(x, ast.Attribute) and x.attr in ("phase", "_phase") and norm(x.value) in owners for p in phase_args for x in ast.walk(p))
-                if carried:
+                # matrices that are the *stabilizer half* of a Clifford tableau need the stabilizer half of its 2n-long sign vector
+                half_attrs = {x.attr for e in exprs for x in ast.walk(e) if isinstance(x, ast.Attribute) and x.attr in ("stabilizer", "stabilizer_x", "stabilizer_z")
+                              and isinstance(x.value, ast.Name) and x.value.id != "self"}
+                whole_phase = [x for p in phase_args for x in ast.walk(p) if isinstance(x, ast.Attribute) and x.attr in ("phase", "_phase")
+                               and norm(x.value) in owners and not isinstance(parent(x), ast.Subscript)]
+                if carried and half_attrs and whole_phase and cn == "StabilizerTableau":
+                    ctx.fail("sign.carry", m, c,
+                             f"{fn.name} builds `{short(c, 70)}` from the stabilizer half {sorted(half_attrs)} of a Clifford tableau together with its whole "
+                             f"sign vector `{norm(whole_phase[0])}` (length 2n: destabilizer signs first): StabilizerTableau ignores a sign vector of the "
+                             f"wrong length and starts from all-plus signs, so the state's negative generators are lost (pass `.phase[n_qubits:]` or use "
+                             f"to_stabilizer())", func=fn.name, construct=f"{fn.name}: stabilizer half paired with the 2n-long sign vector")
+                elif carried:
                     ctx.ok("sign.carry", m, c, what=f"{fn.name}: matrices and sign vector taken from the same tableau")
                 else:
                     ctx.fail("sign.carry", m, c,
